@@ -312,11 +312,15 @@ Fixpoint default_names (ps : prog) : list Z :=
   | Class nm ms k => (match nm with Some c => [c] | None => [] end) ++ allnames ms ++ default_names k
   end.
 
+Definition is_nil (l : list Z) : bool := match l with [] => true | _ => false end.
+
 (* [core_d]: as [core], and the parameter lists of functions and parenthesised arrows may have default values
    ([pcore_d]): references and nested functions / arrows of the same fragment, provided that
      - a default value does not mention a parameter declared later in the same list, and
      - no default value mentions a name that the function body declares
-   (on both, /repo deviates from ECMAScript: resolution_param_defaults_refuted). *)
+   (on both, /repo deviates from ECMAScript: resolution_param_defaults_refuted);
+   class bodies without a class-expression name: methods, field values and computed keys, static blocks
+   without var (c04-es:class-static-block-var). *)
 Fixpoint core_d (p : prog) : bool :=
   match p with
   | Done => true
@@ -328,6 +332,7 @@ Fixpoint core_d (p : prog) : bool :=
   | Arrow ps b k =>
       pcore_d ps && disjointb (default_names ps) (vardecls b ++ lexdecls b) && core_d b && core_d k
   | Catch hd b k => catch_params_only hd && disjointb (headdecls hd) (vardecls b) && core_d b && core_d k
+  | Class None ms k => core_d ms && is_nil (lexdecls ms) && is_nil (vardecls ms) && core_d k
   | _ => false
   end
 with pcore_d (ps : prog) : bool :=
@@ -341,6 +346,8 @@ with pcore_d (ps : prog) : bool :=
   | Arrow a b k =>
       pcore_d a && disjointb (default_names a) (vardecls b ++ lexdecls b) && core_d b
       && disjointb (allnames a ++ allnames b) (headdecls k) && pcore_d k
+  | Class None ms k =>
+      core_d ms && is_nil (lexdecls ms) && is_nil (vardecls ms) && disjointb (allnames ms) (headdecls k) && pcore_d k
   | _ => false
   end.
 
